@@ -15,7 +15,8 @@ RUN_MODULE = "RunC17"
 TRANSLATOR_UNITS = []
 RULE = ("exhaustive: every word of length L (quick 7, thorough 8; PulseSynchronizer 6/8) over {output edge, input "
         "toggle, toggle coincident with the edge} (PulseSynchronizer: {o edge, i edge, both edges, input toggle}) for "
-        "stages=2, every init/i0/async_edge, outputs read after every step (so all prefixes are covered); "
+        "stages=2 (thorough: also stages=3 with L-1), every init/i0/async_edge, outputs read after every step (so all "
+        "prefixes, i.e. all words of length <= L, are covered); "
         "seeded random walks of ~300 steps for stages 2..5, widths 0..4 signed/unsigned, random inits, async_edge pos/neg, "
         "posedge and negedge output domains, four clock-ratio regimes (o fast, i fast, balanced with coincident edges, "
         "well-formed single-cycle pulses separated by an output edge) with inactive edges and out-of-range input values; "
@@ -29,7 +30,7 @@ MODELLED = ("FFSynchronizer/AsyncFFSynchronizer/ResetSynchronizer/PulseSynchroni
 ASSUMPTIONS = ["the output-domain reset is never asserted (FFSynchronizer flops are reset_less by default)",
                "a value driven by the testbench in the same ctx.set as a clock edge is seen by that edge (simulator semantics; "
                "modelled as the group [Ein v; edge])"]
-SHARD = 400
+SHARD = 1000
 
 _HDR = {"ff": 1, "af": 1, "rs": 1, "ps": 3}      # answer = header entries, then the packed trace
 EXC = {"DomainRequirementFailed": 1, "TypeError": 2, "ValueError": 3}
@@ -106,9 +107,9 @@ def gen_cases(tier, seed):
     cases = []
     L = 8 if thorough else 7
     LP = 8 if thorough else 6
-    # --- exhaustive small scope, stages = 2 (thorough: also 3)
-    for st in ((2, 3) if thorough else (2,)):
-        for word in itertools.product(range(3), repeat=L):
+    # --- exhaustive small scope: stages = 2 with words of length L (thorough: also stages = 3, length L - 1)
+    for st, n in (((2, L), (3, L - 1)) if thorough else ((2, L),)):
+        for word in itertools.product(range(3), repeat=n):
             for init in (0, 1):
                 cases.append({"k": "ff", "w": 1, "sg": False, "st": st, "init": init, "i0": 0, "neg": False,
                               "ev": _toggle_word(word, 0, FF_LETTERS), "r": "exh"})
@@ -121,7 +122,8 @@ def gen_cases(tier, seed):
     for word in itertools.product(range(4), repeat=LP):
         for i0 in (0, 1):
             cases.append({"k": "ps", "st": 2, "i0": i0, "neg": False, "ev": _toggle_word(word, i0, PS_LETTERS), "r": "exh"})
-            cases.append({"k": "sep", "i0": i0, "ev": _toggle_word(word, i0, PS_LETTERS), "r": "exh"})
+            if not thorough or word[0] != 3:
+                cases.append({"k": "sep", "i0": i0, "ev": _toggle_word(word, i0, PS_LETTERS), "r": "exh"})
     # --- random walks
     N = 300
     reps = 30 if thorough else 4
@@ -155,6 +157,7 @@ def gen_cases(tier, seed):
         for edge in ("pos", "neg"):
             for st in (2, 3):
                 cases.append({"k": "posedge", "comp": comp, "edge": edge, "st": st})
+    rng.shuffle(cases)       # long walks and short words mixed: evenly sized shards
     return cases
 
 
